@@ -8,7 +8,7 @@ from sa.effects import class_accesses
 from sa.selftest import Mutant, Silent
 from sa.source import AnalysisError, methods, mro_lookup
 from sa.props._lib_b import (BIG, Interp, Spec, Unsupported, a_add, exit_check as _exit_check, fifo_rule, fmt_int, iv, make_state,
-                              report_interp as _report)
+                              per_instance_state, report_interp as _report)
 
 PROPERTY = "C06"
 DEFER = "internet/defer.py"
@@ -506,17 +506,13 @@ def _check_sem_init(ctx, mod):
         nfs = [lincmp(g.node(t).ast, negate=(lab == "F")) for t, lab in g.edge_guards(w)]
         ctx.check((frozenset({(p, 1)}), 1) in nfs, "init/limit-at-least-one", ctx.construct(q, g.node(w).ast),
                   f"a semaphore can be created with {p} < 1 (no acquisition could ever be granted)")
-    inits = [c for c in ast.walk(f) if isinstance(c, ast.Call) and isinstance(c.func, ast.Attribute) and c.func.attr == "__init__"]
-    base_init = ctx.func(DEFER, "_ConcurrencyPrimitive.__init__")
-    from sa.effects import accesses
-    a = [x for x in accesses(base_init, "_ConcurrencyPrimitive.__init__", {"waiting"}, {"self"}) if x.kind in ("rebind-empty",)]
-    wit = g.must_pass([g.entry], g.find(lambda x: x in inits), exc=False)
-    ctx.check(bool(inits) and bool(a) and wit is None, "init/establishes-invariant", q + " | <waiting starts empty>",
-              "`waiting` is not initialised to an empty list on every path")
     lock = ctx.cls(DEFER, "DeferredLock")
     from sa.source import class_assigns
     ca = class_assigns(lock).get("locked")
-    ctx.check(isinstance(ca, ast.Constant) and ca.value is False and "__init__" not in methods(lock),
+    bad_writes = [st for m_ in (methods(lock).get("__init__"), methods(ctx.cls(DEFER, "_ConcurrencyPrimitive")).get("__init__")) if m_ is not None
+                  for st in ast.walk(m_) if isinstance(st, ast.Assign) and any(dotted(t) == "self.locked" for t in st.targets)
+                  and not (isinstance(st.value, ast.Constant) and st.value.value is False)]
+    ctx.check(isinstance(ca, ast.Constant) and ca.value is False and not bad_writes,
               "init/establishes-invariant", f"{MODNAME}.DeferredLock | locked = False",
               "a new DeferredLock does not start unlocked with no holder")
 
@@ -529,6 +525,9 @@ def check(ctx):
         _analyse_primitive(ctx, mod, "DeferredSemaphore", SemSpec())
     with ctx.section("constructors"):
         _check_sem_init(ctx, mod)
+    for cn in ("DeferredLock", "DeferredSemaphore"):
+        with ctx.section(f"{cn} per-instance state"):
+            per_instance_state(ctx, mod, ctx.cls(DEFER, cn), "waiting", MODNAME)
     with ctx.section("run"):
         _check_run(ctx, mod)
 
@@ -617,4 +616,23 @@ SILENT += [
     Silent("sem-release-logs", DEFER, "        self.tokens = self.tokens + 1\n        if self.waiting:", '        self.tokens = self.tokens + 1\n        log.debug("released")\n        if self.waiting:'),
     Silent("sem-canceller-membership-test", DEFER, '        self.waiting.remove(d)\n\n    def acquire(self: Self) -> Deferred[Self]:\n        """\n        Attempt to acquire the token.',
            '        if d in self.waiting:\n            self.waiting.remove(d)\n\n    def acquire(self: Self) -> Deferred[Self]:\n        """\n        Attempt to acquire the token.'),
+]
+
+_BASE_INIT = "    def __init__(self: Self) -> None:\n        self.waiting: List[Deferred[Self]] = []\n"
+_SEM_BASE_CALL = "        _ConcurrencyPrimitive.__init__(self)\n        if tokens < 1:"
+MUTANTS += [
+    # `waiting` becomes a class-level default like `locked`: one queue shared by every lock and semaphore of the process
+    Mutant("waiting-shared-between-instances", DEFER, _BASE_INIT, "    waiting: List[Deferred[Self]] = []\n", expect_rule="init/per-instance-state",
+           more=[(DEFER, _SEM_BASE_CALL, "        if tokens < 1:")]),
+    # only the semaphore forgets to run the base initialiser; the class-level default added "for safety" is then what it uses
+    Mutant("semaphore-skips-base-init", DEFER, _SEM_BASE_CALL, "        if tokens < 1:", expect_rule="init/per-instance-state",
+           more=[(DEFER, "    locked = False\n\n    def _cancelAcquire", "    locked = False\n\n    def _cancelAcquire"),
+                 (DEFER, "class _ConcurrencyPrimitive(ABC):\n", "class _ConcurrencyPrimitive(ABC):\n    waiting: List[Any] = []\n\n")]),
+    Mutant("waiting-aliases-argument", DEFER, _BASE_INIT, "    def __init__(self: Self, waiting=[]) -> None:\n        self.waiting = waiting\n", expect_rule="init/per-instance-state"),
+]
+SILENT += [
+    Silent("semaphore-uses-super", DEFER, "        _ConcurrencyPrimitive.__init__(self)\n", "        super().__init__()\n"),
+    Silent("subclasses-initialise-waiting", DEFER, _BASE_INIT, "    waiting: List[Deferred[Self]]\n",
+           more=[(DEFER, "        _ConcurrencyPrimitive.__init__(self)\n", "        self.waiting = []\n"),
+                 (DEFER, "    locked = False\n\n    def _cancelAcquire", "    locked = False\n\n    def __init__(self) -> None:\n        self.waiting = []\n\n    def _cancelAcquire")]),
 ]
